@@ -361,6 +361,8 @@ def run(ctx):
     # (orc_code_chunk_free merges through prev/next: a stale link releases a chunk that a live OrcCode still owns)
     import importlib
     importlib.import_module("rules.c09").d1(db, rep, "D7-CHUNK-LINKS", "D7-CHUNK-LINKS")
+    # D8: no stale copy of a program's code is used while the program is attached (shared with C06)
+    importlib.import_module("rules.c06").snapshot_slots(db, rep, "D8-LIVE-CODE")
 
     if n6 < 6:
         raise AnalysisBroken("only %d free-then-null instances found" % n6)
